@@ -3,7 +3,9 @@
 cd "$(dirname "$0")/.."
 for d in /verif/seeded/C*; do
   P=$(basename $d)
-  if ! git -C /repo apply --check $d/patch.diff 2>/dev/null; then echo "$P: patch no longer applies to /repo HEAD"; continue; fi
+  # revert.diff (optional): undoes a later "fix:" commit without which the seeded change is no longer reachable
+  if [ -f $d/revert.diff ]; then git -C /repo apply $d/revert.diff || { echo "$P: revert.diff does not apply"; git -C /repo checkout -- .; continue; }; fi
+  if ! git -C /repo apply --check $d/patch.diff 2>/dev/null; then echo "$P: patch no longer applies to /repo HEAD"; git -C /repo checkout -- .; continue; fi
   git -C /repo apply $d/patch.diff
   timeout 3000 ./check $P --tier quick > /tmp/seedv_$P.log 2>&1; rc=$?
   git -C /repo checkout -- .
